@@ -355,6 +355,10 @@ def programs(tier):
 def corpus_cases(tier):
     for code in G.corpus(stdlib=(tier == 'thorough')):
         yield {'code': code}
+    # programs without a single statement, and tiny ones: asked about directly, and explicitly while the report holds another program
+    for code in ['', '\n', '# TODO: write the program\n', '\n\n# nothing yet\n', 'pass\n', "'''only a docstring'''\n", '...\n', 'x = 1\n', 'print()\n']:
+        for how in (None, 'explicit', 'verified_other'):
+            yield dict({'code': code}, **({how: True} if how else {}))
 
 
 STRATEGIES = {'programs': programs}
